@@ -91,7 +91,15 @@ fn prepare_project(file_path: &str, output_dir: Option<&str>) -> CliResult<Prepa
     let needs_serde = codegen.needs_serde();
     let needs_tokio = codegen.needs_tokio();
     let needs_axum = codegen.needs_axum();
-    let rust_crates = collect_rust_crates(&main_module.ast);
+    // `rust::` imports of dependency modules end up in the same Cargo project as the main module's.
+    let mut rust_crates = collect_rust_crates(&main_module.ast);
+    for module in dep_modules {
+        for crate_name in collect_rust_crates(&module.ast) {
+            if !rust_crates.contains(&crate_name) {
+                rust_crates.push(crate_name);
+            }
+        }
+    }
 
     // Setup project generator
     let mut generator = ProjectGenerator::new(&out_dir, project_name, true);
